@@ -104,9 +104,11 @@ func drawTime(t *core.Tape) time.Time {
 	case 0:
 		return time.Time{}
 	case 1:
-		return time.Date(1, 1, 2, 0, 0, 0, 0, loc)
+		// the first instant of year 1 in the value's own zone (year 0 in UTC for zones east of it)
+		return time.Date(1, 1, 1, 0, 0, 0, 0, loc)
 	case 2:
-		return time.Date(9999, 12, 30, 23, 59, 59, 999999999, loc)
+		// the last instant of year 9999 in the value's own zone (year 10000 in UTC for zones west of it)
+		return time.Date(9999, 12, 31, 23, 59, 59, 999999999, loc)
 	case 3:
 		return time.Date(1970, 1, 1, 0, 0, 0, 0, loc)
 	case 4:
